@@ -8,6 +8,8 @@
 EXTENDS AshNcp, Json, IOUtils, TLCExt, TLC, Integers
 
 CONSTANTS TMin, TMax
+(* recorded instants are rounded to whole milliseconds: an interval of exactly TMin / TMax may read 1 ms off *)
+InWindow(dt) == dt \in (TMin - 1) .. (TMax + 1)
 
 Traces == JsonDeserialize(IOEnv.TRACE_FILE)
 VARIABLES h, n, h2n, n2h, hsub, nsub, hUp, nUp, res, canc, tw, tid, l
@@ -58,7 +60,7 @@ TNext ==
                IF e.fault = "drop"
                THEN e.out = <<>> /\ n2h' = q /\ UNCHANGED <<h, h2n, hUp, res, tw>>
                ELSE /\ HostApply(e, IF e.late = 1 THEN StepRecvLate(h, <<f>>) ELSE StepRecv(h, <<f>>))
-                    /\ (e.late = 1 => e.t - tw \in TMin .. TMax)
+                    /\ (e.late = 1 => InWindow(e.t - tw))
                     /\ n2h' = q
           /\ UNCHANGED <<n, hsub, nsub, nUp, canc>>
        \/ /\ e.a = "toncp" /\ h2n # <<>>
@@ -72,7 +74,7 @@ TNext ==
                     /\ nUp' = nUp \o Pls(e.out)
                     /\ h2n' = q
           /\ UNCHANGED <<h, hsub, nsub, hUp, res, canc, tw>>
-       \/ /\ e.a = "htick" /\ TimerEnabled(h) /\ e.t - tw \in TMin .. TMax
+       \/ /\ e.a = "htick" /\ TimerEnabled(h) /\ InWindow(e.t - tw)
           /\ HostApply(e, StepTick(h))
           /\ UNCHANGED <<n, n2h, hsub, nsub, nUp, canc>>
        \/ /\ e.a = "ntick" /\ NTimerEnabled(n) /\ NcpApply(e, NTimerFn(n))
